@@ -16,7 +16,7 @@ for c in man['checks']:
         continue
     cmd = c[tier + '_cmd']
     t0 = time.time()
-    p = subprocess.run(cmd, shell=True, cwd='/verif', capture_output=True, text=True, env=dict(os.environ, VERIF_SEED=seed))
+    p = subprocess.run(cmd, shell=True, cwd='/verif', stdout=subprocess.PIPE, stderr=None, text=True, env=dict(os.environ, VERIF_SEED=seed))
     wall = time.time() - t0
     lines = p.stdout.splitlines()
     ev = {}
@@ -29,7 +29,7 @@ for c in man['checks']:
                 'known_findings': len([l for l in lines if l.startswith('KNOWN-FINDING')]), 'stale': [l for l in lines if l.startswith('STALE')],
                 'summary': lines[-1] if lines else '', 'digest': cov.get('case_outcome_digest'), 'units': '%s/%s' % (cov.get('units_completed'), cov.get('units_total')),
                 'states': cov.get('states'), 'transitions': cov.get('transitions'), 'compared': cov.get('traces_validated_against_impl'), 'outcomes': cov.get('distinct_outcomes'),
-                'exhaustive': cov.get('exhaustive'), 'tier_in_evidence': ev.get('tier'), 'stderr_tail': p.stderr[-300:] if p.returncode not in (0, 1) else ''}
+                'exhaustive': cov.get('exhaustive'), 'tier_in_evidence': ev.get('tier'), 'stderr_tail': ''}
     bad += p.returncode != 0
     print('%s %-8s exit=%d wall=%6.1fs known=%d %s' % (pid, tier, p.returncode, wall, res[pid]['known_findings'], res[pid]['summary'][:150]), flush=True)
     json.dump(res, open(outp, 'w'), indent=1)
